@@ -125,8 +125,23 @@ def generate(rng, tier):
         p["bound_frac"] = sorted(rng.random() for _ in range(p["ncpu"] - 1)) if p["ordering"] == "hilbert" else None
         if p["part"]:
             p["part"]["counts"] = [rng.choice([0, 1, 2, 3, 5]) for _ in range(p["ncpu"])]
+    deep = rng.random() < 0.12
+    if deep:
+        # a deeper uniform base grid on many ranks: the CPU pre-selection depends on box and level cap together
+        p.update(ndim=3, ordering="hilbert", levelmin=3, levelmax=rng.choice([3, 3, 4]), maxcells=rng.choice([700, 900]), ncpu=rng.choice([4, 6, 8, 12]),
+                 bound_keys=None, nboundary=0)
+        p["bound_frac"] = sorted(rng.random() for _ in range(p["ncpu"] - 1))
+        if p["part"]:
+            p["part"]["counts"] = [rng.choice([0, 1, 2, 3]) for _ in range(p["ncpu"])]
     ncalls = rng.choice([2, 2, 3, 4, 5, 8])
     calls = []
+    if deep:
+        kind = rng.choice(["tiny", "leaf", "leaf"])
+        box = [gen_interval(rng, x, p["levelmax"], kind=kind) for x in "xyz"]
+        first = {"kind": "pred_pos", "intervals": box}
+        second = {"kind": "pred_pos", "intervals": [dict(i) for i in box], "level": {"kind": "le", "k": rng.randrange(1, p["levelmax"] + 1)}}
+        calls = [first, second] if rng.random() < 0.5 else [second, first]
+        ncalls = max(0, ncalls - 2)
     for _ in range(ncalls):
         c = gen_call(rng, p)
         # a call that sets per-call reader state is often followed by one that does not touch that reader at all
@@ -134,6 +149,13 @@ def generate(rng, tier):
             c = {"kind": rng.choice(["part_only", "mesh_off", "groups", "full"])}
             if c["kind"] == "groups":
                 c["groups"] = rng.choice([["part"], ["sink"], ["part", "sink"], ["mesh"]])
+        # the same position box as an earlier call, now together with another level cap (or without the one it had)
+        prev = [q for q in calls if q.get("intervals")]
+        if prev and rng.random() < 0.35:
+            q = rng.choice(prev)
+            c = {"kind": "pred_pos", "intervals": [dict(i) for i in q["intervals"]]}
+            if "level" not in q or rng.random() < 0.6:
+                c["level"] = gen_level_pred(rng, p["levelmin"], p["levelmax"])
         calls.append(c)
     faulty = rng.random() < 0.4
     if faulty:
